@@ -88,6 +88,8 @@ pub const FAULT_MSG: &str = "MMV_FAULT: injected panic in a callback of the call
 pub const SITE_CLONE: u8 = 0;
 pub const SITE_WEIGHER: u8 = 1;
 pub const SITE_PRED: u8 = 2;
+pub const SITE_EQ: u8 = 3;
+pub const SITE_HASH: u8 = 4;
 
 thread_local! {
     static FAULT: std::cell::Cell<Option<(u8, u32)>> = const { std::cell::Cell::new(None) };
@@ -122,6 +124,8 @@ pub fn site_name(site: u8) -> &'static str {
     match site {
         SITE_CLONE => "clone",
         SITE_WEIGHER => "weigher",
+        SITE_EQ => "key-eq",
+        SITE_HASH => "key-hash",
         _ => "predicate",
     }
 }
@@ -161,12 +165,14 @@ impl Drop for TK {
 
 impl PartialEq for TK {
     fn eq(&self, other: &Self) -> bool {
+        fault_point(SITE_EQ);
         self.id == other.id
     }
 }
 impl Eq for TK {}
 impl Hash for TK {
     fn hash<H: Hasher>(&self, state: &mut H) {
+        fault_point(SITE_HASH);
         state.write_u32(self.id);
     }
 }
